@@ -11,6 +11,7 @@ func init() {
 	register("ilv", "c08", false, func(t *testing.T, r *sim.Run) { ilv.RunC08(r) })
 	register("ilv", "c05", false, func(t *testing.T, r *sim.Run) { ilv.RunC05(r) })
 	register("ilv", "c01i", false, func(t *testing.T, r *sim.Run) { ilv.RunC01I(r) })
+	register("ilv", "c10i", false, func(t *testing.T, r *sim.Run) { ilv.RunC10I(r) })
 	register("ilv", "c03i", false, func(t *testing.T, r *sim.Run) { ilv.RunC03I(r) })
 	register("ilv", "c14", false, func(t *testing.T, r *sim.Run) { ilv.RunC14(r) })
 }
